@@ -762,12 +762,16 @@ func c19dgramServer(c *c19case, js string, s *vt.Sink, seed int64) error {
 
 	before := c19snap(sess.Stats())
 	var ids []int
+	// every source sends a short run of datagrams back to back (what a source is allowed to do
+	// must not depend on who sent the datagram before)
 	for _, sk := range socks {
-		tid, buf := mk()
-		ids = append(ids, tid)
-		if err := c19send(sk, buf, bd.IP, dstPort); err != nil {
-			fail("send", err)
-			return nil
+		for k := 0; k < 3; k++ {
+			tid, buf := mk()
+			ids = append(ids, tid)
+			if err := c19send(sk, buf, bd.IP, dstPort); err != nil {
+				fail("send", err)
+				return nil
+			}
 		}
 	}
 	delivered, stats := false, false
@@ -1010,11 +1014,13 @@ func c19dgramClient(c *c19case, js string, s *vt.Sink, seed int64) error {
 		ids = append(ids, tid)
 	}
 	for _, sk := range socks {
-		tid, buf := forged()
-		ids = append(ids, tid)
-		if err := c19send(sk, buf, c19ipPeer, dstPort); err != nil {
-			fail("send", err)
-			return nil
+		for k := 0; k < 3; k++ { // a short run back to back, as on the server side
+			tid, buf := forged()
+			ids = append(ids, tid)
+			if err := c19send(sk, buf, c19ipPeer, dstPort); err != nil {
+				fail("send", err)
+				return nil
+			}
 		}
 	}
 	delivered, stats := false, false
